@@ -9,7 +9,10 @@ CharPieces == {CA, CNT, CSQRT, CCRAB}
 Run(n)     == [i \in 1..n |-> 97 + (i % 26)]
 LongPieces == {Run(7), Run(8), Run(9), Run(7) \o CNT, CNT \o Run(7), Run(9) \o CNT, Run(16), Run(17), <<>>, CA}
 LongSeps   == {<<44>>, Run(9), Run(7) \o CNT, Run(16)}
-LongLists  == SeqsUpTo(LongPieces, 2)
+\* third family: totals and pieces beyond 256 bytes (a byte count kept in a u8 wraps), and 40 one-byte pieces
+HugePieces == {Run(255), Run(256), Run(257), Run(255) \o CNT}
+HugeLists  == UNION {{<<h>>, <<h, CA>>, <<CNT, h>>, <<h, h>>} : h \in HugePieces} \cup {[q \in 1..40 |-> CA], [q \in 1..130 |-> <<97, 98>>]}
+LongLists  == SeqsUpTo(LongPieces, 2) \cup HugeLists
 MCLists == SeqsUpTo(StrPieces, MaxPieces) \cup SeqsUpTo(CharPieces, MaxPieces) \cup LongLists
 MCSeps  == {<<>>, <<44>>, CSQRT \o CSQRT, CNT} \cup LongSeps
 IsCharList(ps) == \A q \in 1..Len(ps) : ps[q] \in CharPieces
